@@ -280,7 +280,10 @@ def run(run, tier, load):
     run.assumptions = ['user closures and user Signal impls behave as functions of their arguments', 'Frame operations are as decided by C03']
     cfgs = ['std-debug'] + (['nostd', 'std-release'] if tier == 'thorough' else [])
     for cfg in cfgs:
-        cx = Ctx(load(cfg))
+        fx_ = load(cfg, optional=(cfg == 'nostd'))
+        if fx_ is None:
+            continue
+        cx = Ctx(fx_)
         n = 0
         nret = 0
         for imp in cx.facts.impls_of(SIGNAL):
